@@ -85,9 +85,9 @@ class TripleRule(SHACLRule):
             added = 0
             to_add = []
             for a in applicable_nodes:
-                s_set = nodes_from_node_expression(self.s, a, data_graph, self.shape.sg)
-                p_set = nodes_from_node_expression(self.p, a, data_graph, self.shape.sg)
-                o_set = nodes_from_node_expression(self.o, a, data_graph, self.shape.sg)
+                s_set = nodes_from_node_expression(self.s, a, data_graph, self.shape.sg, executor=self.executor)
+                p_set = nodes_from_node_expression(self.p, a, data_graph, self.shape.sg, executor=self.executor)
+                o_set = nodes_from_node_expression(self.o, a, data_graph, self.shape.sg, executor=self.executor)
                 new_triples = itertools.product(s_set, p_set, o_set)
                 this_added = False
                 for i in iter(new_triples):
